@@ -32,13 +32,16 @@ VARIABLES l,      \* next trace line
 
 tvars == <<l, k, ph, prog, from, contig, enc, memo, diag, pool, svars>>
 
-MaxNotes == 400
+(* register 1: the notes kept (at most MaxPerProp per property); register 2: property -> number of notes *)
+MaxPerProp == 60
 Note(prop, why, extra) ==
-  /\ TLCSet(2, TLCGet(2) + 1)
-  /\ IF Len(TLCGet(1)) < MaxNotes
-     THEN TLCSet(1, Append(TLCGet(1), [line |-> l, prog |-> prog.id, fam |-> prog.fam, prop |-> prop,
-                                       why |-> why, extra |-> extra]))
-     ELSE TRUE
+  LET cnt == TLCGet(2)
+      n == IF prop \in DOMAIN cnt THEN cnt[prop] ELSE 0
+  IN /\ TLCSet(2, (prop :> n + 1) @@ cnt)
+     /\ IF n < MaxPerProp
+        THEN TLCSet(1, Append(TLCGet(1), [line |-> l, prog |-> prog.id, fam |-> prog.fam, prop |-> prop,
+                                          why |-> why, extra |-> extra]))
+        ELSE TRUE
 NoteIf(cond, prop, why, extra) == IF cond THEN Note(prop, why, extra) ELSE TRUE
 
 Has(e, f) == f \in DOMAIN e
@@ -205,21 +208,48 @@ ListBound(e, len) ==
 
 EvUnmarshal(e) ==
   LET t == TypeNum(e.type) IN
-  /\ ListBound(e, Len(e.data))
+  /\ (~e.err => ListBound(e, Len(e.data)))
   /\ pool' = (e.h :> [t |-> t, o |-> IF Has(e, "obs") THEN Adopt(t, e.obs) ELSE NewObs(t)]) @@ pool
   /\ Bystanders(e, e.h)
   /\ UNCHANGED <<from, contig, enc, memo, diag, prog>> /\ KeepStream
 
+(* after a divergence the model takes over what was observed, so that one defect is reported once *)
+Resync(e) == IF ~Has(e, "all") THEN pool
+             ELSE [g \in DOMAIN pool |->
+                     IF \E j \in 1..Len(e.all) : e.all[j][1] = g
+                     THEN [pool[g] EXCEPT !.o = Adopt(pool[g].t, e.all[CHOOSE j \in 1..Len(e.all) : e.all[j][1] = g][2])]
+                     ELSE pool[g]]
 EvScribble(e) ==
   /\ Bystanders(e, 0)
-  /\ UNCHANGED <<pool, from, contig, enc, memo, diag, prog>> /\ KeepStream
+  /\ pool' = Resync(e)
+  /\ UNCHANGED <<from, contig, enc, memo, diag, prog>> /\ KeepStream
+
+(* the caller overwrote a slice it got from an accessor of e.h: that packet may change, no other *)
+EvScribbleSlice(e) ==
+  /\ Bystanders(e, e.h)
+  /\ pool' = IF Has(e, "all") /\ e.h \in DOMAIN pool /\ \E j \in 1..Len(e.all) : e.all[j][1] = e.h
+             THEN [pool EXCEPT ![e.h].o = Adopt(pool[e.h].t, e.all[CHOOSE j \in 1..Len(e.all) : e.all[j][1] = e.h][2])]
+             ELSE pool
+  /\ enc' = [x \in DOMAIN enc \ {e.h} |-> enc[x]]
+  /\ UNCHANGED <<from, contig, memo, diag, prog>> /\ KeepStream
 
 PanicProp(op) == IF op \in {"ReadPacket", "Unmarshal"} THEN "C04"
                  ELSE IF op = "Diag" THEN "C19"
                  ELSE IF op \in {"WriteTo", "WriteN"} THEN "C10"
                  ELSE "C12"
+(* the frame a ReadPacket call that never returned was about to read *)
+PendingFrame == LET g == SubSeq(wire, pos + 1, limit)  hd == Header(g) IN
+                IF hd.hdr /\ hd.total <= Len(g) THEN SubSeq(g, 1, hd.total) ELSE <<>>
 EvPanic(e) ==
   /\ Note(PanicProp(e.op), "panic", [op |-> e.op, site |-> e.site, msg |-> e.msg])
+  /\ IF e.op = "ReadPacket" /\ PendingFrame # <<>>
+     THEN LET vd == Verdict(PendingFrame) IN
+          /\ NoteIf(vd.kind = "accept", "C03", "valid frame made the decoder panic", [site |-> e.site, frame |-> PendingFrame])
+          /\ NoteIf(vd.kind = "reject", "C09", "frame that must be rejected made the decoder panic instead of returning an error",
+                    [site |-> e.site, cls |-> vd.cls, frame |-> PendingFrame])
+          /\ NoteIf(from # 0 /\ from \in DOMAIN enc /\ enc[from].bytes = PendingFrame, "C01", "own output made the decoder panic",
+                    [site |-> e.site, frame |-> PendingFrame])
+     ELSE TRUE
   /\ UNCHANGED <<pool, from, contig, enc, memo, diag, prog>> /\ KeepStream
 EvBudget(e) ==
   /\ Note("C05", "decoding exceeded the work bound of the frame", [steps |-> e.steps, limit |-> e.limit])
@@ -241,7 +271,8 @@ Step(e) ==
   ELSE IF e.ev = "CmpDiag" THEN EvCmpDiag(e)
   ELSE IF e.ev = "Filter" THEN EvFilter(e)
   ELSE IF e.ev = "Unmarshal" THEN EvUnmarshal(e)
-  ELSE IF e.ev \in {"Scribble", "ScribbleSlice"} THEN EvScribble(e)
+  ELSE IF e.ev = "Scribble" THEN EvScribble(e)
+  ELSE IF e.ev = "ScribbleSlice" THEN EvScribbleSlice(e)
   ELSE IF e.ev = "Panic" THEN EvPanic(e)
   ELSE IF e.ev = "Budget" THEN EvBudget(e)
   ELSE IF e.ev = "Abort" THEN EvAbort(e)
@@ -329,15 +360,15 @@ ReadReturn(e) ==                                     \* k = Len(calls) + 1
                  "the same frame gave another outcome than on its first, contiguous read", [frame |-> g, ok0 |-> m0.ok, ok |-> e.ok])
      ELSE TRUE
   /\ memo' = IF judge /\ g \notin DOMAIN memo /\ contig THEN (g :> Outcome(e)) @@ memo ELSE memo
-  /\ (judge => ListBound(e, Len(g)))
+  /\ (judge /\ e.ok => ListBound(e, Len(g)))
   \* the decoded packet becomes a live handle
-  /\ pool' = IF e.ok /\ Has(e, "obs") /\ rt >= 0
-             THEN (e.h :> [t |-> rt, o |-> IF v.kind = "accept" /\ rt = v.pkt.t THEN ObsOfWire(v.pkt) ELSE Adopt(rt, e.obs)]) @@ pool
-             ELSE pool
-  /\ (e.ok /\ Has(e, "obs") /\ rt >= 0 /\ v.kind = "accept" /\ rt = v.pkt.t => WFCheck(rt, ObsOfWire(v.pkt), e.obs))
-  /\ enc' = IF e.ok /\ Has(e, "reenc") /\ ~e.reencFailed /\ rt >= 0
-            THEN (e.h :> [o |-> IF v.kind = "accept" /\ rt = v.pkt.t THEN ObsOfWire(v.pkt) ELSE Adopt(rt, e.obs), bytes |-> e.reenc]) @@ enc
-            ELSE enc
+  /\ LET conforms == v.kind = "accept" /\ rt = v.pkt.t /\ ObsDiff(ObsOfWire(v.pkt), e.obs) = {}
+         o2 == IF conforms THEN ObsOfWire(v.pkt) ELSE Adopt(rt, e.obs)        \* re-synchronise after a divergence
+     IN /\ pool' = IF e.ok /\ Has(e, "obs") /\ rt >= 0 THEN (e.h :> [t |-> rt, o |-> o2]) @@ pool ELSE pool
+        /\ (e.ok /\ Has(e, "obs") /\ rt >= 0 /\ v.kind = "accept" /\ rt = v.pkt.t => WFCheck(rt, ObsOfWire(v.pkt), e.obs))
+        /\ enc' = IF e.ok /\ Has(e, "reenc") /\ ~e.reencFailed /\ rt >= 0
+                  THEN (e.h :> [o |-> o2, bytes |-> e.reenc]) @@ enc
+                  ELSE enc
   /\ RP_ReturnEff
   /\ k' = 0 /\ ph' = "req" /\ l' = l + 1
   /\ UNCHANGED <<prog, from, contig, diag>>
@@ -354,7 +385,7 @@ Init ==
   /\ pool = EmptyFn /\ enc = EmptyFn /\ memo = EmptyFn /\ diag = EmptyFn
   /\ from = 0 /\ contig = TRUE
   /\ wire = <<>> /\ limit = 0 /\ fate = "eof" /\ with = FALSE /\ pos = 0 /\ rp = Idle
-  /\ TLCSet(1, <<>>) /\ TLCSet(2, 0) /\ TLCSet(3, 0)
+  /\ TLCSet(1, <<>>) /\ TLCSet(2, EmptyFn) /\ TLCSet(3, 0)
 
 Next ==
   /\ l <= N
@@ -368,6 +399,7 @@ Spec == Init /\ [][Next]_tvars
 
 (* all lines consumed; notes written out for the orchestrator *)
 TraceDone ==
-  /\ ndJsonSerialize(NotesFile, <<[summary |-> TRUE, lines |-> N, reached |-> TLCGet(3), notes |-> TLCGet(2)]>> \o TLCGet(1))
+  /\ ndJsonSerialize(NotesFile, <<[summary |-> TRUE, lines |-> N, reached |-> TLCGet(3),
+                                   counts |-> [p \in DOMAIN TLCGet(2) |-> TLCGet(2)[p]] @@ [none |-> 0]]>> \o TLCGet(1))
   /\ TLCGet(3) = N \/ N = 0
 =============================================================================
